@@ -139,3 +139,12 @@ Proof.
   apply enumerate_numl. apply Forall_forall. intros x Hx. apply in_map_iff in Hx. destruct Hx as (b & <- & Hb).
   split; [apply f32_of_bits_valid|exact (proj1 (Forall_forall _ _) Hn b Hb)].
 Qed.
+
+(** the one-pass function the check evaluates is the pair (Sample_grammar, grammar_draws) of the model *)
+Lemma grammar_both_eq : forall E pr rej logits r1 r2,
+  grammar_both E pr rej logits r1 r2 = (Sample_grammar E pr rej logits r1 r2, grammar_draws E pr rej logits r1).
+Proof.
+  intros E pr rej logits r1 r2. unfold grammar_both, Sample_grammar, grammar_draws. destruct logits as [|l0 lr]; [easy|].
+  destruct (sample E pr (enumerate 0 (l0 :: lr)) r1) as [t| | |]; destruct (feq (p_temp pr) fzero); try easy;
+    destruct (first_pick_rejected rej t); easy.
+Qed.
